@@ -619,6 +619,19 @@ def expr_facet_points_uniform_tables():
 
 
 @entry("quick", "expr")
+def expr_complex_comparison_of_computed_real_value():
+    """complex scalar type, a comparison whose operand is a *computed* real value: the intermediate holding it must
+    not be of the complex type (C has no < for complex numbers); integer-valued conditional in a quotient"""
+    ufl, _, _ = _U()
+    m = mesh("triangle")
+    f = ufl.Coefficient(space(m, "Lagrange", 1))
+    x = ufl.SpatialCoordinate(m)
+    c = ufl.conditional(ufl.lt(x[0] * x[0] + x[1], 0.5), 1, 2)
+    pts = np.array([[0.25, 0.25], [0.5, 0.125]])
+    return [(c * f, pts), (ufl.conditional(ufl.gt(ufl.real(f) * x[0], 0.25), f, ufl.conj(f)) / c, pts)], {"scalar_type": "complex128"}
+
+
+@entry("quick", "expr")
 def expr_interval_two_coefficients():
     ufl, _, _ = _U()
     m = mesh("interval")
@@ -704,6 +717,26 @@ def same_type_and_id_on_two_integration_domains():
     m1, m2 = mesh("triangle"), mesh("triangle")
     f, g = ufl.Coefficient(space(m1, "Lagrange", 1)), ufl.Coefficient(space(m2, "Lagrange", 1))
     return [f * ufl.dx(domain=m1) + g * g * ufl.dx(domain=m2)], {}, "form"
+
+
+@unsupported
+def erf_of_complex_coefficient():
+    """C has no complex error function: erf(w0) with a double _Complex w0 converts silently to the real part"""
+    ufl, _, _ = _U()
+    m = mesh("triangle")
+    V = space(m, "Lagrange", 1)
+    v, f = ufl.TestFunction(V), ufl.Coefficient(V)
+    return [ufl.erf(f) * ufl.conj(v) * ufl.dx], {"scalar_type": "complex128"}, "form"
+
+
+@unsupported
+def bessel_of_complex_coefficient():
+    """jn / yn are real functions: jn(1, w0) with a complex w0 converts silently to the real part"""
+    ufl, _, _ = _U()
+    m = mesh("triangle")
+    V = space(m, "Lagrange", 1)
+    v, f = ufl.TestFunction(V), ufl.Coefficient(V)
+    return [ufl.bessel_J(1, f) * ufl.conj(v) * ufl.dx], {"scalar_type": "complex64"}, "form"
 
 
 @unsupported
